@@ -796,13 +796,24 @@ class Differ:
         ]] = []
         for lhs_idx, lhs_ele in enumerate(lhs):
             if not key_attr in lhs_ele:
-                # Impossible to match this LHS record to any RHS record
+                # No identity to match by; pair this LHS record with an
+                # identical RHS record that also lacks the identity key.
                 self.logger.debug(
                     "LHS record has no identity key, {}, for record at {}:"
                     .format(key_attr, path),
                     data=lhs_ele,
                     prefix="Differ::synchronize_lods_by_key:  ")
-                syn_pairs.append((lhs_idx, lhs_ele, None, None))
+                twin_index = -1
+                for reduced_idx, (_, rhs_ele) in enumerate(rhs_reduced):
+                    if not key_attr in rhs_ele and rhs_ele == lhs_ele:
+                        twin_index = reduced_idx
+                        break
+                if twin_index > -1:
+                    (rhs_original_idx, rhs_ele) = rhs_reduced.pop(twin_index)
+                    syn_pairs.append(
+                        (lhs_idx, lhs_ele, rhs_original_idx, rhs_ele))
+                else:
+                    syn_pairs.append((lhs_idx, lhs_ele, None, None))
                 continue
 
             del_index = -1
